@@ -102,25 +102,37 @@ backend_harnesses!(simd128, vcfg_simd128, memchr::arch::wasm32::simd128::memchr,
 
 #[cfg(vcfg_neon)]
 inst!(neon_one_find, [props=C01+C09 xprops=C05+C14 tier=quick cfg=neon t=1800 role=neon-find uw=verif_emul:17;find_raw.0:2;find_raw.1:4;byte_by_byte:17], 3,
+    neon::find::<39>(1, false, 0, 24));
+#[cfg(vcfg_neon)]
+inst!(neon_one_find_40, [props=C01+C09 xprops=C05+C14 tier=thorough cfg=neon t=5400 role=neon-find uw=verif_emul:17;find_raw.0:2;find_raw.1:4;byte_by_byte:17], 3,
     neon::find::<55>(1, false, 0, 40));
 #[cfg(vcfg_neon)]
 inst!(neon_one_rfind, [props=C02+C09 xprops=C05+C14 tier=quick cfg=neon t=1800 role=neon-rfind uw=verif_emul:17;rfind_raw.0:2;rfind_raw.1:4;byte_by_byte:17], 3,
+    neon::find::<39>(1, true, 0, 24));
+#[cfg(vcfg_neon)]
+inst!(neon_one_rfind_40, [props=C02+C09 xprops=C05+C14 tier=thorough cfg=neon t=5400 role=neon-rfind uw=verif_emul:17;rfind_raw.0:2;rfind_raw.1:4;byte_by_byte:17], 3,
     neon::find::<55>(1, true, 0, 40));
 #[cfg(vcfg_neon)]
 inst!(neon_two_find, [props=C01+C09 xprops=C05+C14 tier=thorough cfg=neon t=1800 role=neon-find uw=verif_emul:17;find_raw.0:2;find_raw.1:4;byte_by_byte:17], 3,
-    neon::find::<55>(2, false, 0, 40));
+    neon::find::<39>(2, false, 0, 24));
 #[cfg(vcfg_neon)]
 inst!(neon_two_rfind, [props=C02+C09 xprops=C05+C14 tier=thorough cfg=neon t=1800 role=neon-rfind uw=verif_emul:17;rfind_raw.0:2;rfind_raw.1:4;byte_by_byte:17], 3,
-    neon::find::<55>(2, true, 0, 40));
+    neon::find::<39>(2, true, 0, 24));
 #[cfg(vcfg_neon)]
 inst!(neon_three_find, [props=C01+C09 xprops=C05+C14 tier=quick cfg=neon t=1800 role=neon-find uw=verif_emul:17;find_raw.0:2;find_raw.1:4;byte_by_byte:17], 3,
+    neon::find::<39>(3, false, 0, 24));
+#[cfg(vcfg_neon)]
+inst!(neon_three_find_40, [props=C01+C09 xprops=C05+C14 tier=thorough cfg=neon t=5400 role=neon-find uw=verif_emul:17;find_raw.0:2;find_raw.1:4;byte_by_byte:17], 3,
     neon::find::<55>(3, false, 0, 40));
 #[cfg(vcfg_neon)]
 inst!(neon_three_rfind, [props=C02+C09 xprops=C05+C14 tier=quick cfg=neon t=1800 role=neon-rfind uw=verif_emul:17;rfind_raw.0:2;rfind_raw.1:4;byte_by_byte:17], 3,
+    neon::find::<39>(3, true, 0, 24));
+#[cfg(vcfg_neon)]
+inst!(neon_three_rfind_40, [props=C02+C09 xprops=C05+C14 tier=thorough cfg=neon t=5400 role=neon-rfind uw=verif_emul:17;rfind_raw.0:2;rfind_raw.1:4;byte_by_byte:17], 3,
     neon::find::<55>(3, true, 0, 40));
 #[cfg(vcfg_neon)]
-inst!(neon_one_count, [props=C07+C09 xprops=C05+C14 tier=quick cfg=neon t=1800 role=neon-count uw=verif_emul:17;count_raw.0:2;count_raw.1:4;byte_by_byte:17;oracle::count:36], 3,
-    neon::count::<49>(0, 34));
+inst!(neon_one_count, [props=C07+C09 xprops=C05+C14 tier=quick cfg=neon t=1800 role=neon-count uw=verif_emul:17;count_raw.0:2;count_raw.1:4;byte_by_byte:17;oracle::count:22], 3,
+    neon::count::<35>(0, 20));
 #[cfg(vcfg_neon)]
 inst!(neon_packed_find_n3, [props=C12+C09 xprops=C05+C14 tier=quick cfg=neon t=1800 role=neon-packedpair-find uw=verif_emul:17;find_in_chunk:18;is_equal_raw:3;packedpair::Finder:4], 5,
     neon::packed::<3, 34>(false));
@@ -132,25 +144,37 @@ inst!(neon_finder_n2, [props=C03+C09 xprops=C05+C14 tier=quick cfg=neon t=1800 r
     neon::finder::<2, 20>(0, 20));
 #[cfg(vcfg_simd128)]
 inst!(simd128_one_find, [props=C01+C09 xprops=C05+C14 tier=quick cfg=simd128 t=1800 role=simd128-find uw=verif_emul:17;find_raw.0:2;find_raw.1:4;byte_by_byte:17], 3,
+    simd128::find::<39>(1, false, 0, 24));
+#[cfg(vcfg_simd128)]
+inst!(simd128_one_find_40, [props=C01+C09 xprops=C05+C14 tier=thorough cfg=simd128 t=5400 role=simd128-find uw=verif_emul:17;find_raw.0:2;find_raw.1:4;byte_by_byte:17], 3,
     simd128::find::<55>(1, false, 0, 40));
 #[cfg(vcfg_simd128)]
 inst!(simd128_one_rfind, [props=C02+C09 xprops=C05+C14 tier=quick cfg=simd128 t=1800 role=simd128-rfind uw=verif_emul:17;rfind_raw.0:2;rfind_raw.1:4;byte_by_byte:17], 3,
+    simd128::find::<39>(1, true, 0, 24));
+#[cfg(vcfg_simd128)]
+inst!(simd128_one_rfind_40, [props=C02+C09 xprops=C05+C14 tier=thorough cfg=simd128 t=5400 role=simd128-rfind uw=verif_emul:17;rfind_raw.0:2;rfind_raw.1:4;byte_by_byte:17], 3,
     simd128::find::<55>(1, true, 0, 40));
 #[cfg(vcfg_simd128)]
 inst!(simd128_two_find, [props=C01+C09 xprops=C05+C14 tier=thorough cfg=simd128 t=1800 role=simd128-find uw=verif_emul:17;find_raw.0:2;find_raw.1:4;byte_by_byte:17], 3,
-    simd128::find::<55>(2, false, 0, 40));
+    simd128::find::<39>(2, false, 0, 24));
 #[cfg(vcfg_simd128)]
 inst!(simd128_two_rfind, [props=C02+C09 xprops=C05+C14 tier=thorough cfg=simd128 t=1800 role=simd128-rfind uw=verif_emul:17;rfind_raw.0:2;rfind_raw.1:4;byte_by_byte:17], 3,
-    simd128::find::<55>(2, true, 0, 40));
+    simd128::find::<39>(2, true, 0, 24));
 #[cfg(vcfg_simd128)]
 inst!(simd128_three_find, [props=C01+C09 xprops=C05+C14 tier=quick cfg=simd128 t=1800 role=simd128-find uw=verif_emul:17;find_raw.0:2;find_raw.1:4;byte_by_byte:17], 3,
+    simd128::find::<39>(3, false, 0, 24));
+#[cfg(vcfg_simd128)]
+inst!(simd128_three_find_40, [props=C01+C09 xprops=C05+C14 tier=thorough cfg=simd128 t=5400 role=simd128-find uw=verif_emul:17;find_raw.0:2;find_raw.1:4;byte_by_byte:17], 3,
     simd128::find::<55>(3, false, 0, 40));
 #[cfg(vcfg_simd128)]
 inst!(simd128_three_rfind, [props=C02+C09 xprops=C05+C14 tier=quick cfg=simd128 t=1800 role=simd128-rfind uw=verif_emul:17;rfind_raw.0:2;rfind_raw.1:4;byte_by_byte:17], 3,
+    simd128::find::<39>(3, true, 0, 24));
+#[cfg(vcfg_simd128)]
+inst!(simd128_three_rfind_40, [props=C02+C09 xprops=C05+C14 tier=thorough cfg=simd128 t=5400 role=simd128-rfind uw=verif_emul:17;rfind_raw.0:2;rfind_raw.1:4;byte_by_byte:17], 3,
     simd128::find::<55>(3, true, 0, 40));
 #[cfg(vcfg_simd128)]
-inst!(simd128_one_count, [props=C07+C09 xprops=C05+C14 tier=quick cfg=simd128 t=1800 role=simd128-count uw=verif_emul:17;count_raw.0:2;count_raw.1:4;byte_by_byte:17;oracle::count:36], 3,
-    simd128::count::<49>(0, 34));
+inst!(simd128_one_count, [props=C07+C09 xprops=C05+C14 tier=quick cfg=simd128 t=1800 role=simd128-count uw=verif_emul:17;count_raw.0:2;count_raw.1:4;byte_by_byte:17;oracle::count:22], 3,
+    simd128::count::<35>(0, 20));
 #[cfg(vcfg_simd128)]
 inst!(simd128_packed_find_n3, [props=C12+C09 xprops=C05+C14 tier=quick cfg=simd128 t=1800 role=simd128-packedpair-find uw=verif_emul:17;find_in_chunk:18;is_equal_raw:3;packedpair::Finder:4], 5,
     simd128::packed::<3, 34>(false));
